@@ -782,11 +782,11 @@ m('c03-rhs-minus-g', ['C03'],
   (EX, "            rhs += g_linform(elems)", "            rhs -= g_linform(elems)"),
   rule='R-signs')
 m('c03-residual-m0-sign', ['C03'],
-  (EE, "                    result[i] += M0u0(t, x.reshape(2, 1))",
-   "                    result[i] -= M0u0(t, x.reshape(2, 1))"), rule='R-signs')
+  (EE, "                    result[i] += np.squeeze(M0u0(t, x.reshape(2, 1)))",
+   "                    result[i] -= np.squeeze(M0u0(t, x.reshape(2, 1)))"), rule='R-signs')
 m('c03-residual-g-sign', ['C03'],
-  (EE, "                    result[i] -= g(t, x.reshape(2, 1))",
-   "                    result[i] += g(t, x.reshape(2, 1))"), rule='R-signs')
+  (EE, "                    result[i] -= np.squeeze(g(t, x.reshape(2, 1)))",
+   "                    result[i] += np.squeeze(g(t, x.reshape(2, 1)))"), rule='R-signs')
 m('c03-residual-no-phi', ['C03'],
   (EE, """                        VPhi += Phi[j] * SL.evaluate(elem_trial, t, x_hat,
                                                      x.reshape(2, 1))""",
